@@ -454,6 +454,25 @@ func main() {
 									}
 									tr.AddAt(b, vh.Ev{"ev": "begin", "id": id, "op": "endcq", "txn": txn})
 									tr.Add(vh.Ev{"ev": "end", "id": id})
+								case "scrape":
+									// read of the used-quota gauges of both quotas, as the metrics observer does on a scrape
+									b := tr.Stamp()
+									out := "ok"
+									for _, qid := range []string{"fw", "cq"} {
+										q, err := g.dm.VerifActiveStream().VerifQuota(qid)
+										if err != nil {
+											out = "error:" + err.Error()
+											break
+										}
+										c, ok := q.(interface{ GetQuotaGroupsCounters() map[string]int64 })
+										if !ok {
+											out = fmt.Sprintf("error:quota %s (%T) has no GetQuotaGroupsCounters", qid, q)
+											break
+										}
+										c.GetQuotaGroupsCounters()
+									}
+									tr.AddAt(b, vh.Ev{"ev": "begin", "id": id, "op": "scrape", "out": out})
+									tr.Add(vh.Ev{"ev": "end", "id": id})
 								case "metrics":
 									b := tr.Stamp()
 									inv := g.dm.VerifActiveStream().GetFlowInvocations()
